@@ -21,6 +21,8 @@ type Relay struct {
 	closed bool
 	// HoldNew: links accepted from now on start with their upstream (dialer -> acceptor) direction held
 	HoldNewUp bool
+	// Record: keep a copy of every byte that travels upstream (dialer -> acceptor), per link
+	Record bool
 	// HoldFrom: links with index >= HoldFrom start held (0 = off); lets the first link of a pool through and delays the joins
 	HoldFrom int
 }
@@ -34,6 +36,7 @@ type pipe struct {
 	bytes  int64
 	// inflight: bytes taken by the writer and not yet written
 	inflight int
+	rec      []byte
 }
 
 type Link struct {
@@ -93,6 +96,9 @@ func (lk *Link) read(src net.Conn, p *pipe) {
 			p.mu.Lock()
 			p.buf = append(p.buf, buf[:n]...)
 			p.bytes += int64(n)
+			if lk.r.Record && p == lk.up {
+				p.rec = append(p.rec, buf[:n]...)
+			}
 			p.cond.Broadcast()
 			p.mu.Unlock()
 		}
@@ -256,4 +262,11 @@ func (r *Relay) Idle() bool {
 		}
 	}
 	return true
+}
+
+// RecordedUp returns a copy of the upstream bytes recorded so far on this link.
+func (lk *Link) RecordedUp() []byte {
+	lk.up.mu.Lock()
+	defer lk.up.mu.Unlock()
+	return append([]byte{}, lk.up.rec...)
 }
